@@ -28,7 +28,7 @@ any_types = st.one_of(
 _text_alphabet = st.characters(exclude_characters=LINE_TERMINATORS, exclude_categories=("Cs",))
 
 DELIM_PAYLOADS = ("lat;lon;alt", ";", "a;;b", ";x", "55.7;12.5;3", "x;", ";;", "1;2;3;4;5;6;7")
-PLAIN_PAYLOADS = ("", "0", "1", "57", "20.0", "-3", " leading", "a b", "åäö", "日本", "M", "2.2.0", "abc\x00", "\x00", "\x00x", "\ufeffbom", "x\ufeff", "\ttab", "²", "a\x7f")
+PLAIN_PAYLOADS = ("", "0", "1", "57", "20.0", "-3", " leading", "a b", "åäö", "日本", "M", "2.2.0", "abc\x00", "\x00", "\x00x", "\ufeffbom", "x\ufeff", "\ttab", "²", "a\x7f", "C:\\new\\data.txt", "\\n", "a\\nb", "\\r\\n", "\\t", "\\\\", "%0A", "&#10;", "\\u000a")
 
 
 def _clean(text: str) -> str:
